@@ -193,7 +193,19 @@ func init() {
 				{"callback-nocookie", cu.RequestURI(), "", "GET"},
 			}
 			for _, ep := range eps {
-				for _, remote := range []string{"", "10.7.7.7:99"} {
+				// peer / connection variants: default peer, a trusted TCP peer, a unix-socket peer ("@"), a Host that matches none of
+				// the configured cookie domains, a TLS connection
+				type connVar struct {
+					remote, host string
+					tls          bool
+				}
+				conns := []connVar{{"", "", false}, {"10.7.7.7:99", "", false}}
+				switch ep.name {
+				case "protected-anon", "start", "signout", "authonly-anon":
+					conns = append(conns, connVar{"@", "", false}, connVar{"", "internal.lb:8080", false}, connVar{"", "", true})
+				}
+				for _, cv := range conns {
+					remote := cv.remote
 					// sign-out consumes the server-side session: issue a fresh one per request
 					fresh := func(rs reqSpec) reqSpec {
 						if strings.HasPrefix(ep.name, "signout") && ep.cookie != "" {
@@ -201,7 +213,7 @@ func init() {
 						}
 						return rs
 					}
-					baseRS := reqSpec{Method: ep.method, Target: ep.target, Cookie: ep.cookie, RemoteAddr: remote}
+					baseRS := reqSpec{Method: ep.method, Target: ep.target, Cookie: ep.cookie, RemoteAddr: remote, Host: cv.host, TLS: cv.tls}
 					v0, _ := e.serveCase(fresh(baseRS), nil, "fwd:base")
 					if v0 == nil {
 						continue
@@ -216,12 +228,12 @@ func init() {
 							continue
 						}
 						view1 := decisionView(e, v1)
-						c.casen(fmt.Sprintf("c16|%+v|%s|%s|%d", cfg.ReverseProxy, ep.name, remote, hi), ep.name+" "+fmt.Sprint(hs)+" => "+view1)
+						c.casen(fmt.Sprintf("c16|%+v|%s|%+v|%d", cfg.ReverseProxy, ep.name, cv, hi), ep.name+" "+fmt.Sprint(hs)+" => "+view1)
 						if !cfg.ReverseProxy {
 							c.count("c16:off-pair")
 							if view0 != view1 {
 								c.violation("C16", "forwarding headers changed the decision although reverse-proxy mode is off", map[string]interface{}{
-									"endpoint": ep.name, "target": ep.target, "remote": remote, "headers": hs, "without": view0, "with": view1, "cfg": fmt.Sprintf("%+v", cfg)})
+									"endpoint": ep.name, "target": ep.target, "remote": remote, "host": cv.host, "tls": cv.tls, "headers": hs, "without": view0, "with": view1, "cfg": fmt.Sprintf("%+v", cfg)})
 							} else {
 								c.count("c16:off-same")
 							}
@@ -617,6 +629,15 @@ func init() {
 									if mode == "rp" {
 										hdr.Set("X-Forwarded-Host", host)
 										reqHost = "internal.proxy.local"
+										// the other forwarding headers a front proxy sends must not change any cookie attribute
+										if p := []string{"", "http", "https", "HTTP", "ws"}[(n+len(host)+len(usr.Sub))%5]; p != "" {
+											hdr.Set("X-Forwarded-Proto", p)
+										}
+										if (n+len(host))%3 == 0 {
+											hdr.Set("X-Forwarded-Uri", "/after?x=1")
+											hdr.Set("X-Forwarded-For", "203.0.113.7")
+											hdr.Set("X-Forwarded-Port", "80")
+										}
 									}
 									sr := e.do(reqSpec{Target: "/oauth2/start?rd=/after", Host: reqHost, Header: hdr})
 									if sr.raw != nil {
